@@ -20,7 +20,7 @@ let run mode file =
   let prev_version = ref empty_root in
   let acct = (mode = "c07" || mode = "c08") in
   let meta_written = ref false and fail_after_meta = ref false and fail_kind = ref "" in
-  let d5 = ref false and d4 = ref false and unmapped = ref false in
+  let d5 = ref false and d4 = ref false and unmapped = ref false and open_r = ref [] in
   let last_dump = ref "t:" and pending_dump = ref "t:" in
   let last_reach = ref (-1) in
   let api_free : int list option ref = ref None in
@@ -63,6 +63,9 @@ let run mode file =
       if rest = ["FAIL"] then (fail_kind := kind; fail_after_meta := !meta_written)
       else if kind = "write" && int_of_string off < 2 * s.ps then meta_written := true
     | "o" :: rest -> cur := rest; incr opidx;
+      (match rest with
+       | "open" :: fields -> List.iter (fun f -> match String.split_on_char '=' f with ["ps"; v] -> (try s.ps <- int_of_string v with _ -> ()) | _ -> ()) fields
+       | _ -> ());
       (match rest with ["beginw"] | "commitfail" :: _ | ["commit"] -> (match rest with ["beginw"] -> () | _ -> meta_written := false; fail_kind := "") | _ -> ());
       (match rest with "img" :: _ -> () | _ -> Buffer.add_string optext (String.concat " " rest); Buffer.add_char optext '\n')
     | "r" :: "panic" :: msg when not !dead && not spec ->
@@ -70,6 +73,18 @@ let run mode file =
     | "r" :: res when not !dead ->
       incr ops;
       let res_s = String.concat " " res in
+      (* open readers, tracked in every mode (the accounting/format projections do not run the reference map): the known
+         finding D5 is "final sync failed while a reader was open" *)
+      (match !cur, res with
+       | ["beginr"; id], "ok" :: _ -> if not (List.mem id !open_r) then open_r := id :: !open_r
+       | ["endr"; id], _ -> open_r := List.filter (fun x -> x <> id) !open_r
+       | ("close" :: _ | "open" :: _), _ -> open_r := []
+       | _ -> ());
+      List.iter (fun f -> if String.length f > 15 && String.sub f 0 15 = "blocked-closed=" then
+        List.iter (fun id -> open_r := List.filter (fun x -> x <> id) !open_r) (String.split_on_char ',' (String.sub f 15 (String.length f - 15)))) res;
+      (match !cur, res with
+       | "commitfail" :: _, e :: _ when String.length e > 0 && e.[0] = 'E' && !fail_after_meta && !open_r <> [] -> d5 := true
+       | _ -> ());
       (match (if spec then !cur else (match !cur with
                                       | ("img" :: _) as c -> c
                                       | ("check" :: _) as c -> c
